@@ -179,6 +179,18 @@ func genPrefixes(g *gen) {
 				}
 				g.emit("pfxfn", term.A(kind), tb(ap), term.Hex(b))
 			}
+			// histories through one decode function: results are read after the last call
+			for i := 0; i < g.scale(300, 6000); i++ {
+				var bs []T
+				for k := 2 + g.r.Intn(4); k > 0; k-- {
+					b := g.prefixField(false, ap, g.r.Intn(6))
+					if g.r.Intn(4) == 0 {
+						b = g.mutate(b)
+					}
+					bs = append(bs, term.Hex(b))
+				}
+				g.emit("pfxseq", term.A(kind), tb(ap), term.L(bs...))
+			}
 		}
 	}
 	for l := 0; l <= 50; l++ {
